@@ -100,10 +100,9 @@ Proof.
   destruct (R_ops _ _ _ _ _ _ _ _ Rc E1) as (_ & Hw). eauto.
 Qed.
 
-(* a shared write of a goroutine is a swap cell or a spare FROM-joins cell of the parent *)
+(* a shared write of a goroutine is a spare FROM-joins cell of the parent *)
 Lemma shared_writes_classified h par newdb pr l i :
-  swf h par -> In (l, i) (shared_writes grow md h par newdb pr) ->
-  swap_cell h par l i \/ fromj_spare_cell par l i.
+  swf h par -> In (l, i) (shared_writes grow md h par newdb pr) -> fromj_spare_cell par l i.
 Proof.
   intros W Hin. unfold shared_writes, writes_of in Hin. apply filter_In in Hin. destruct Hin as (Hin & Hl).
   cbn [fst] in Hl. apply Nat.ltb_lt in Hl.
@@ -115,24 +114,18 @@ Proof.
   destruct (R_ops _ _ _ _ _ _ _ _ Rc E2) as ([Wk Lk Ck Xk Ok] & Hw).
   apply in_app_iff in Hin. destruct Hin as [Hin | Hin]; [apply Hw in Hin; lia|].
   assert (F := finish_writes grow md Hmd _ _ _ _ _ _ Wk E3 _ _ Hin).
-  destruct F as [L | [(n & c & Ef & Hi) | (f & n & c & Hf & Ef & Hi & Nq)]]; [lia | |].
-  - right. destruct (Ck FFromj) as [Q | [Fr | (_ & Q)]]; [congruence | rewrite Ef in Fr; cbn in Fr; lia |].
-    exists n, c. rewrite <- Q. split; auto. lia.
-  - left. assert (Ex : excl f = false) by (destruct Hf; subst; reflexivity).
-    destruct (Ck f) as [Q | [Fr | (_ & Q)]]; [congruence | rewrite Ef in Fr; cbn in Fr; lia |].
-    exists f, n, c. rewrite <- Q. repeat split; auto.
-    unfold swap_quiet. assert (Wx : wf_slice h f (SArr l n c)) by (rewrite <- Ef, Q; apply W).
-    rewrite <- (Ok f _ Wx). exact Nq.
+  destruct F as [L | (n & c & Ef & Hi)]; [lia|].
+  destruct (Ck FFromj) as [Q | [Fr | (_ & Q)]]; [congruence | rewrite Ef in Fr; cbn in Fr; lia |].
+  exists n, c. rewrite <- Q. split; auto. lia.
 Qed.
 
 Lemma no_shared_writes h par newdb pr :
-  swf h par -> parent_quiet h par -> shared_writes grow md h par newdb pr = [].
+  swf h par -> fromj_full par -> shared_writes grow md h par newdb pr = [].
 Proof.
-  intros W (Qw & Qh & Qf). destruct (shared_writes grow md h par newdb pr) as [|[l i] r] eqn:E; auto.
+  intros W Qf. destruct (shared_writes grow md h par newdb pr) as [|[l i] r] eqn:E; auto.
   exfalso. assert (Hin : In (l, i) (shared_writes grow md h par newdb pr)) by (rewrite E; left; auto).
-  destruct (shared_writes_classified _ _ _ _ _ _ W Hin) as [(f & n & c & Hf & Ef & Hi & Nq) | (n & c & Ef & Hi & Hc)].
-  - apply Nq. rewrite <- Ef. destruct Hf; subst; auto.
-  - rewrite Ef in Qf. cbn in Qf. lia.
+  destruct (shared_writes_classified _ _ _ _ _ _ W Hin) as (n & c & Ef & Hi & Hc).
+  unfold fromj_full in Qf. rewrite Ef in Qf. cbn in Qf. lia.
 Qed.
 End G.
 
@@ -154,22 +147,22 @@ Theorem c07_chain_methods_write_private : forall grow md, inplace_free md ->
   forall l i, In (l, i) (w0 ++ w) -> length h <= l.
 Proof. intros grow md H. exact (chain_methods_write_private grow md H). Qed.
 
-(* whatever the parent: a goroutine's shared writes are Where.Build swap cells of the parent's
-   WHERE / HAVING array, or spare cells of the parent's FROM-joins array *)
+(* whatever the parent: a goroutine's shared writes are spare cells of the parent's FROM-joins array
+   (a caller's clause.From{Joins} with cap > len; BuildQuerySQL appends the statement joins onto it) *)
 Theorem c07_shared_writes_classified : forall grow md, inplace_free md ->
   forall h par newdb pr l i,
-  swf h par -> In (l, i) (shared_writes grow md h par newdb pr) ->
-  swap_cell h par l i \/ fromj_spare_cell par l i.
+  swf h par -> In (l, i) (shared_writes grow md h par newdb pr) -> fromj_spare_cell par l i.
 Proof. intros grow md H. exact (shared_writes_classified grow md H). Qed.
 
 Theorem c07_no_shared_writes : forall grow md, inplace_free md ->
-  forall h par newdb pr, swf h par -> parent_quiet h par -> shared_writes grow md h par newdb pr = [].
+  forall h par newdb pr, swf h par -> fromj_full par -> shared_writes grow md h par newdb pr = [].
 Proof. intros grow md H. exact (no_shared_writes grow md H). Qed.
 
-(* two goroutines on one quiet reusable parent: neither writes a cell the other can read or write *)
+(* two goroutines on one reusable parent whose FROM joins have no spare capacity (in particular:
+   every parent without a caller-made clause.From): neither writes a cell the other can read or write *)
 Theorem c07_disjoint_writes : forall grow md, inplace_free md ->
   forall h par nd1 pr1 nd2 pr2 l i,
-  swf h par -> parent_quiet h par ->
+  swf h par -> fromj_full par ->
   In (l, i) (shared_writes grow md h par nd1 pr1) ->
   ~ reads par l i /\ ~ In (l, i) (shared_writes grow md h par nd2 pr2).
 Proof.
@@ -177,40 +170,23 @@ Proof.
   rewrite (no_shared_writes grow md H h par nd1 pr1 W Q) in Hin. destruct Hin.
 Qed.
 
-(* ---- refutations for parents that are not quiet (reachable states, Go's growth policy) ---- *)
+Lemma fromj_full_nil par : sl par FFromj = SNil -> fromj_full par.
+Proof. intro E. unfold fromj_full. rewrite E. reflexivity. Qed.
+
+(* ---- reachable states (Go's growth policy) ---- *)
 Definition wit_swap_hist : list step := [Derive 0 (OOr (-10)%Z); Derive 1 (OWhere [11%Z] 1); Sess 2 SPlain].
 Definition wit_fromj_hist : list step := [Derive 0 (OFrom [20%Z] 4); Sess 1 SPlain].
 
-Definition cell_eqb (a b : nat * nat) : bool := Nat.eqb (fst a) (fst b) && Nat.eqb (snd a) (snd b).
-Definition readsb (par : mstmt) (x : nat * nat) : bool :=
-  existsb (fun f => match sl par f with SArr l n _ => Nat.eqb l (fst x) && (snd x <? n) | SNil => false end) all_fields.
-Lemma readsb_ok par l i : readsb par (l, i) = true -> reads par l i.
-Proof.
-  unfold readsb. intro H. apply existsb_exists in H. destruct H as (f & _ & H).
-  destruct (sl par f) as [|l' n c] eqn:E; [discriminate|]. cbn in H. apply andb_prop in H. destruct H as (H1 & H2).
-  apply Nat.eqb_eq in H1. apply Nat.ltb_lt in H2. subst. exists f, n, c. auto.
-Qed.
-
-(* Where.Build's swap: a Find derived from a handle whose WHERE starts with a single Or writes two
-   cells of the parent's array that every other chain of that handle reads (and writes) *)
-Theorem c07_swap_refuted :
+(* the former witness of a shared write by Where.Build (a handle whose WHERE starts with a single Or;
+   refuted the disjointness before /repo 12bf8b8): the swap now happens on a private copy *)
+Theorem c07_swap_private_now :
   let st := run_hist go_grow tree_md wit_swap_hist in
   let par := parent_stmt st 3 in
-  exists l i, In (l, i) (shared_writes go_grow tree_md (st_heap st) par false ([], FFind))
-              /\ reads par l i
-              /\ In (l, i) (shared_writes go_grow tree_md (st_heap st) par false ([OWhere [12%Z] 1], FTake) ++
-                            shared_writes go_grow tree_md (st_heap st) par false ([], FDelete)).
-Proof.
-  intros st par.
-  assert (E : shared_writes go_grow tree_md (st_heap st) par false ([], FFind) = [(2, 0); (2, 1)]) by (vm_compute; reflexivity).
-  exists 2, 0. rewrite E. split; [left; reflexivity|]. split.
-  - apply readsb_ok. vm_compute. reflexivity.
-  - assert (E2 : existsb (cell_eqb (2, 0))
-                  (shared_writes go_grow tree_md (st_heap st) par false ([OWhere [12%Z] 1], FTake) ++
-                   shared_writes go_grow tree_md (st_heap st) par false ([], FDelete)) = true) by (vm_compute; reflexivity).
-    apply existsb_exists in E2. destruct E2 as ([l i] & Hin & Heq). unfold cell_eqb in Heq. cbn [fst snd] in Heq.
-    apply andb_prop in Heq. destruct Heq as (H1 & H2). apply Nat.eqb_eq in H1, H2. subst. exact Hin.
-Qed.
+  shared_writes go_grow tree_md (st_heap st) par false ([], FFind) = []
+  /\ shared_writes go_grow tree_md (st_heap st) par false ([OWhere [12%Z] 1], FTake) = []
+  /\ fst (snd (fst (fst (goroutine go_grow tree_md par false ([], FFind) (st_heap st))))) =
+     [900001; 900003; 900004; 900005; 11; -10]%Z.
+Proof. intros st par. vm_compute. repeat split; reflexivity. Qed.
 
 (* fromClause.Joins: two Finds with a Joins call each, derived from a handle that carries a caller's
    clause.From{Joins} with spare capacity, write the same cell of the caller's array *)
@@ -226,13 +202,15 @@ Proof.
   rewrite E1, E2. split; left; reflexivity.
 Qed.
 
-(* non-vacuity of c07_disjoint_writes: a reachable, state-carrying parent that is quiet *)
-Example c07_quiet_parent_exists :
-  let st := run_hist go_grow tree_md [Derive 0 (OWhere [11%Z] 1); Derive 1 (OOr (-10)%Z); Derive 2 (OJoins 12%Z); Sess 3 SPlain] in
-  parent_quiet (st_heap st) (parent_stmt st 4) /\ sl (parent_stmt st 4) FWhere <> SNil.
-Proof. intro st. split; [vm_compute; repeat split; reflexivity | vm_compute; discriminate]. Qed.
+(* non-vacuity of c07_disjoint_writes: a reachable, state-carrying parent (leading Or in its WHERE,
+   joins, a caller's clause.From without spare capacity) that satisfies the hypothesis *)
+Example c07_full_parent_exists :
+  let st := run_hist go_grow tree_md [Derive 0 (OOr (-10)%Z); Derive 1 (OWhere [11%Z] 1); Derive 2 (OJoins 12%Z);
+                                      Derive 3 (OFrom [13%Z] 1); Sess 4 SPlain] in
+  fromj_full (parent_stmt st 5) /\ sl (parent_stmt st 5) FWhere <> SNil /\ sl (parent_stmt st 5) FFromj <> SNil.
+Proof. intro st. split; [vm_compute; reflexivity | split; vm_compute; discriminate]. Qed.
 
 Print Assumptions c07_disjoint_writes.
 Print Assumptions c07_shared_writes_classified.
-Print Assumptions c07_swap_refuted.
+Print Assumptions c07_swap_private_now.
 Print Assumptions c07_fromjoins_refuted.
